@@ -21,7 +21,8 @@ func init() {
 		Level: "other",
 		Explanation: "Decides the operator-table clause: (R-PREC) the switch of getInfixOpInfo is read as a table name -> (precedence, arity): * / % share a level above + -, above !, above the seven comparisons (one level), above & &&, above | ||, above the comma, above parentheses, above the end marker; the function level exceeds all; arity is 2 for binary symbols and 1 for !; every key of builtinOperators that is not identifier-shaped has an explicit entry (a missing one silently becomes a function name) and aliases of one operator share a level; names without an entry get the function level and 'count from the stack'; " +
 			"(R-ASSOC) in the reduction loop of the shunting-yard parser the loop stops only when the incoming operator binds strictly tighter than the stack top (comparePrecedence(car, top) > 0, with comparePrecedence = precedence(car) - precedence(top), or the function level for a function name), so equal precedence reduces first: left associativity; a function name never reduces what is below it; the operands of a reduced operator are popped into their slots from last to first (source order is kept). " +
-			"Panic-freedom of the shunting-yard stacks is C06. NOT decided: the algorithm as a whole (call arity from the recorded stack height, `!ident` splitting, parenthesis matching), i.e. tree equality for all expressions.",
+			"(R-REDUCEGATE) every buildParentNode call of the reduction closure is edge-dominated by the losing outcome of comparePrecedence(car, top.t) > 0 for the closure's own arriving token; after `)` meets `(` the closure returns without building; for an arriving operator name its arity is consulted so that a prefix operator reduces nothing (D13, repaired). " +
+			"Panic-freedom of the shunting-yard stacks is C06. NOT decided: call arity from the recorded stack height and `!ident` splitting in the lexer, i.e. tree equality for all expressions.",
 		Run:       runC15,
 		Witnesses: c15Witnesses,
 	})
